@@ -2,19 +2,41 @@
    regenerated from /repo on every run (tools/tables/lintcontext.py -> Model/Tables_lintcontext.v). *)
 Require Import Base Suggestion Ignore Tables_lintcontext.
 From Coq Require Import String.
-Open Scope string_scope.
 
-(* the context variant the sources build: 0 as pinned, 1 = F12 repaired, 2 = F13 repaired, 3 = both *)
-Definition source_variant : nat := Nat.b2n lc_blanks_twin_loc + 2 * lc_sequel_variant.
+(* the window expressions the translator knows (0 = before 4550195, 1 = since), as index builders *)
+Definition context_indices_v (pv sv : nat) (l : ilint) (d : doc) : res (list nat) :=
+  let sp := il_span l in
+  let problem := token_indices_intersecting d sp in
+  do prequel <- match pv with
+                | 0 => Ok (match pulled_by (with_len sp 2) 2 with
+                           | Some v => token_indices_intersecting d v
+                           | None => []
+                           end)
+                | _ => do pw <- span_new (sstart sp - 2) (sstart sp); Ok (token_indices_intersecting d pw)
+                end;
+  let sequel := token_indices_intersecting d
+                  (match sv with 0 => push_by (with_len sp 2) 2 | _ => span_new_with_len (send sp) 2 end) in
+  Ok (prequel ++ problem ++ sequel)%list.
+(* the statements the translator knows in the closure applied to each fat token *)
+Definition blank_kind_v (twin meta : bool) (k : tkind) : tkind :=
+  match k with
+  | KQuote _ => if twin then KQuote None else k
+  | KWord _ => if meta then KWord None else k
+  | _ => k
+  end.
+
+Open Scope string_scope.
 
 Lemma code_shape :
   (* LintContext hashes exactly the five fields of the model's ctx, in this order *)
   lc_fields = ["lint_kind"; "suggestions"; "message"; "priority"; "tokens"] /\
   lc_derives_hash = true /\ lc_built_from_fields = true /\
-  (* the windows and their order are the ones of `context`, twin_loc is not blanked:
-     `context` (variant 0) is the model of the code, and the _refuted theorems speak about the code *)
-  lc_prequel_variant = lc_sequel_variant /\ lc_chain_prequel_problem_sequel = true /\
-  context_v source_variant = context /\
+  (* the windows the sources use, in the order prequel / problem / sequel, are the ones of `context_indices`,
+     and the closure applied to each fat token blanks what `blank_kind` blanks (and does nothing else:
+     the translator raises on any other statement) *)
+  lc_chain_prequel_problem_sequel = true /\
+  (forall l d, context_indices_v lc_prequel_variant lc_sequel_variant l d = context_indices l d) /\
+  (forall k, blank_kind_v lc_blanks_twin_loc lc_blanks_word_metadata k = blank_kind k) /\
   (* fat tokens: (content, kind), hashed; Quote carries twin_loc, hashed; tkind covers every TokenKind *)
   fat_token_fields = ["content"; "kind"] /\ fat_token_derives_hash = true /\
   quote_fields = ["twin_loc"] /\ quote_derives_hash = true /\ token_kind_derives_hash = true /\
@@ -23,4 +45,11 @@ Lemma code_shape :
                          "Hostname"; "Unlintable"; "ParagraphBreak"; "Regexish"] /\
   (* the JSON key of the exported list *)
   ignored_json_key = key_text /\ ignored_derives_serde = true.
-Proof. repeat split; reflexivity. Qed.
+Proof.
+  assert (forall l d, context_indices_v lc_prequel_variant lc_sequel_variant l d = context_indices l d) as H1.
+  { intros l d. unfold context_indices_v, context_indices, prequel_window.
+    destruct (span_new (sstart (il_span l) - 2) (sstart (il_span l))); reflexivity. }
+  assert (forall k, blank_kind_v lc_blanks_twin_loc lc_blanks_word_metadata k = blank_kind k) as H2.
+  { intros k. destruct k; reflexivity. }
+  repeat (split; [reflexivity|]). split; [exact H1|]. split; [exact H2|]. repeat (split; [reflexivity|]). reflexivity.
+Qed.
